@@ -31,6 +31,7 @@ from __future__ import annotations
 import asyncio
 import itertools
 import math
+import pickle
 import os
 import subprocess
 import sys
@@ -333,6 +334,9 @@ class Impl:
     def run_template(self, template: Any, data: dict[str, Any] | None = None) -> str:
         if self.mode == "sync":
             return template.render(**(data or {}))
+        if self.mode == "pickle":
+            # a second way in which the parsed literals are read back: pickle.loads
+            return pickle.loads(pickle.dumps(template)).render(**(data or {}))
         if self._loop is None:
             self._loop = asyncio.new_event_loop()
         return self._loop.run_until_complete(template.render_async(**(data or {})))
@@ -365,6 +369,9 @@ def lit(q: str, raw: str) -> str:
 
 # partials that write what was bound: under the name of the partial (`p`) or under the alias `v`
 BIND_TEMPLATES = {"p": "[{{ p }}]", "pv": "[{{ v }}]"}
+
+# sites whose literal is kept as a name in the AST: also read back through pickle
+PICKLE_SITES = ("macro", "block", "extends", "include", "render", "include_with_as", "output", "path")
 
 SITES: dict[str, dict[str, Any]] = {
     "output": {
@@ -445,6 +452,15 @@ SITES: dict[str, dict[str, Any]] = {
         "ast": lambda t: t.nodes[0].name.value,
         "render": lambda im, q, raw, s: im.render("{% extends " + lit(q, raw) + " %}", None, {s: "EXT"}),
         "expect": lambda s: "EXT",
+    },
+    "block": {
+        "site": "SiteIdentifier", "template": True, "plain_only": True,
+        "src": lambda q, raw: "{% block " + lit(q, raw) + " %}C{% endblock %}",
+        "ast": lambda t: str(t.nodes[0].name),
+        "render": lambda im, q, raw, s: im.render(
+            "{% extends 'base' %}{% block " + lit(q, raw) + " %}C{% endblock %}", None,
+            {"base": "[{% block " + lit(DQ, canonical(s)) + " %}B{% endblock %}]"}),
+        "expect": lambda s: "[C]",
     },
     "include_with": {
         "site": "SitePrimitive", "template": True,
@@ -763,7 +779,7 @@ def gen_valid(run: Run) -> dict[str, list[tuple[str, str, str]]]:
 def oracle_sites(run: Run, triples: Iterable[tuple[str, str, str]], site_names: list[str],
                  with_async: bool = False) -> None:
     im = run.im
-    for q, s, raw in triples:
+    for ti, (q, s, raw) in enumerate(triples):
         for name in site_names:
             sd = SITES[name]
             if sd["render"] is None:
@@ -800,6 +816,22 @@ def oracle_sites(run: Run, triples: Iterable[tuple[str, str, str]], site_names: 
                          f"site {name} under render_async(): literal {lit(q, raw)!r} denotes {got!r}, written {s!r} "
                          f"(render() gives {out[1] if out[0] == 'ok' else type(out[1]).__name__!r})",
                          {"site": name, "quote": q, "raw": raw, "intended": s, "got": got, "mode": "render_async",
+                          "source": sd["src"](q, raw)})
+            if name not in PICKLE_SITES or (ti % 3 and not run.thorough):
+                continue
+            im.mode = "pickle"
+            try:
+                pout = attempt(sd["render"], im, q, raw, s)
+            finally:
+                im.mode = "sync"
+            run.count("oracle_renders")
+            run.count("oracle_pickle_renders")
+            if pout != ("ok", exp):
+                got = pout[1] if pout[0] == "ok" else type(pout[1]).__name__
+                run.fail(f"literal-value:pickle:{name}",
+                         f"site {name} after pickle.loads(pickle.dumps(template)): literal {lit(q, raw)!r} denotes {got!r}, "
+                         f"written {s!r} (the template itself gives {out[1] if out[0] == 'ok' else type(out[1]).__name__!r})",
+                         {"site": name, "quote": q, "raw": raw, "intended": s, "got": got, "mode": "pickle round trip",
                           "source": sd["src"](q, raw)})
 
 
@@ -1397,6 +1429,61 @@ def oracle_for_offset(run: Run) -> None:
                      {"source": src, "mode": mode})
 
 
+# ---------------------------------------------------------------- string literals inside ${ ... }
+
+def oracle_nested_literals(run: Run, pool: list[tuple[str, str, str]]) -> None:
+    """An interpolation may itself contain string literals (empty ones too) and
+    further interpolated strings; the literal text around it must survive.
+    Outside the Coq fragment (the sub-expression scanner is a parameter there):
+    direct oracle, render() / render_async() / pickle round trip."""
+    im, r = run.im, run.r
+    data = {"y": "a-b", "d": {"": "E", "k": "K"}, "z": "Z"}
+    # (interpolation body for an outer quote o / inner quote i, its value)
+    bodies = [
+        ("x | default: %(i)s%(i)s", ""), ("y | replace: %(i)s-%(i)s, %(i)s%(i)s", "ab"), ("%(i)s%(i)s", ""),
+        ("%(i)sc%(i)s", "c"), ("%(i)s%(i)s | append: %(i)sq%(i)s", "q"), ("z | append: %(i)s%(i)s", "Z"),
+        ("d[%(i)s%(i)s]", "E"), ("d[%(i)sk%(i)s]", "K"), ("%(i)s%(i)s | default: %(i)sv%(i)s", "v"),
+        ("%(i)sl${z}r%(i)s", "lZr"), ("%(i)s${ %(o)s%(o)s }%(i)s", ""), ("%(i)s${z}%(i)s | append: %(i)s%(i)s", "Z"),
+        ("z | prepend: %(i)s${ %(o)s%(o)s }p%(i)s", "pZ"), ("x | default: %(i)s%(i)s | append: %(i)s%(i)s", ""),
+    ]
+    texts = [("a", "a", "b", "b"), ("", "", "b", "b"), ("a", "a", "", ""), ("[", "[", "]", "]")]
+    for q, s, raw in pool:
+        if ref_decode(q, raw, True) == s and not _has_interp(raw) and r.random() < 0.5:
+            texts.append((raw, s, raw, s))
+    forms = ["{{ %s }}", "{%% assign v = %s %%}{{ v }}", "{{ 'x' | append: %s }}"]
+    for o, i in ((DQ, SQ), (SQ, DQ)):
+        for bi, (body, bval) in enumerate(bodies):
+            for ti, (raw0, s0, raw1, s1) in enumerate(texts):
+                if ti >= 4 and (bi + ti) % 5:
+                    continue
+                if ti >= 4 and (ref_decode(o, raw0, True) != s0):
+                    continue          # the pooled spelling belongs to the other kind of quotes
+                btxt = body % {"i": i, "o": o}
+                tail = "${ %s }" % btxt
+                literal = o + raw0 + tail + raw1 + tail + raw0 + o
+                want_val = s0 + bval + s1 + bval + s0
+                for fi, fmt in enumerate(forms):
+                    if fi and ti >= 2:
+                        continue
+                    src = fmt % literal
+                    want = ("x" if fi == 2 else "") + want_val
+                    for mode in ("sync", "async", "pickle"):
+                        im.mode = mode
+                        try:
+                            out = attempt(im.render, src, data)
+                        finally:
+                            im.mode = "sync"
+                        run.count("oracle_renders")
+                        run.count("nested_literal_renders")
+                        if out != ("ok", want):
+                            got = out[1] if out[0] == "ok" else type(out[1]).__name__
+                            run.fail("literal-value:nested-in-interpolation" + ("" if mode == "sync" else ":" + mode),
+                                     f"{src!r} ({mode}) writes {got!r}; the literal text around the interpolations is "
+                                     f"{s0!r} / {s1!r}, so it must write {want!r}",
+                                     {"source": src, "mode": mode, "data": data, "intended": want, "got": got})
+                run.nontrivial.add(f"nl:{o}:{bi}:{ti}")
+
+
 # ---------------------------------------------------------------- auto_escape x literal positions
 
 AE_TEMPLATES = {"p": "{{ s }}"}
@@ -1745,6 +1832,8 @@ def main(chk: C.Check, build: C.Build) -> None:
     lap("oracle_range_bounds")
     oracle_for_offset(run)
     lap("oracle_for_offset")
+    oracle_nested_literals(run, short[:: 40] + longer[:: 6])
+    lap("oracle_nested_literals")
     oracle_json_history(run)                     # before any other use of the json filter in this process
     json_history_finish(run, history_procs)
     lap("oracle_json_history")
@@ -1806,6 +1895,8 @@ def main(chk: C.Check, build: C.Build) -> None:
                  "range bounds: integer literals around 2^53, 2^63, 2^64, 10^22..10^23 (plain, negative, e/E exponent spellings) as start, "
                  "stop or both bounds of tiny range literals at 17 positions (size first last join output for reversed limit "
                  "forloop.length contains assign cycle case reverse ternary), sync and async. "
+                 "string literals (empty and not) and nested interpolated strings inside ${...} with literal text before, between and after; "
+                 "every async site also after a pickle round trip of the parsed template (quoted identifiers: macro, block, extends, alias). "
                  "json history: %d scalars (True/1/1.0, False/0/0.0/-0.0 ...) + nested + %d literals through the json filter in seeded "
                  "and fixed type-major orders, long-lived and fresh environments, in this process and in fresh subprocesses, compared "
                  "with type, value and sign of zero. "
